@@ -317,6 +317,45 @@ theorem recognise_deg_min (dd md : Str) (hd : IsField dd 3) (hm : IsField md 2)
     rw [dir_parse t ht]
   · rename_i heq; simp at heq
 
+/-- a digit field followed by a mark of the *other* kind is not this optional group -/
+theorem optField_wrong_mark (ds : Str) (h : IsField ds 2) (a b c : Nat) (rest : Str)
+    (hd : isDigit c = false) (ha : c ≠ a) (hb : c ≠ b) :
+    optField (ds ++ c :: rest) a b = none := by
+  unfold optField
+  rw [takeDigits2_field ds h c rest hd]
+  split
+  · rfl
+  · rename_i heq
+    simp only [Prod.mk.injEq, List.cons.injEq] at heq
+    obtain ⟨_, _, rfl, _⟩ := heq
+    simp [ha, hb]
+  · rfl
+
+/-- degrees and seconds without minutes — the fourth field shape the pattern admits -/
+theorem recognise_deg_sec (dd sd : Str) (hd : IsField dd 3) (hs : IsField sd 2)
+    (ps : Nat) (hps : ps = cDPrime ∨ ps = cQuote) (t : Tail) (ht : t.Ok) :
+    dmsRecognise (dd ++ cDeg :: (sd ++ ps :: t.str))
+      = some ⟨digitsVal dd, none, some (digitsVal sd), t.dirOpt⟩ := by
+  obtain ⟨d1, d2, d3, d4, d5⟩ := isDigit_marks
+  have hpsd : isDigit ps = false := by rcases hps with rfl | rfl <;> assumption
+  have n1 : ps ≠ cPrime := by rcases hps with rfl | rfl <;> decide
+  have n2 : ps ≠ cApos := by rcases hps with rfl | rfl <;> decide
+  unfold dmsRecognise
+  rw [takeDigits3_field dd hd cDeg _ d1]
+  have : dd ≠ [] := by intro h0; have := hd.1; simp [h0] at this
+  split
+  · rename_i heq; simp at heq; exact absurd heq.2.1 this
+  · rename_i heq
+    simp only [Prod.mk.injEq, List.cons.injEq] at heq
+    obtain ⟨rfl, _, rfl, rfl⟩ := heq
+    simp only [bne_self_eq_false, Bool.false_eq_true, ↓reduceIte]
+    rw [optField_wrong_mark sd hs cPrime cApos ps _ hpsd n1 n2]
+    simp only
+    rw [optField_present sd hs cDPrime cQuote ps _ hps hpsd]
+    simp only
+    rw [dir_parse t ht]
+  · rename_i heq; simp at heq
+
 /-! ### Rejection -/
 
 /-- text that does not begin with 1–3 digits followed by `°` is not recognised -/
